@@ -30,7 +30,7 @@ TRAD = {"CFS", "GPM", "MGD", "IMGD", "AFD"}
 
 # networks whose features both engines support and whose hydraulics are well conditioned (no disconnected demand, no
 # threshold ties): the agreement checks are restricted to them; the reader validation uses every INP file EPANET accepts
-COMMON = ["builtin:net1_noon_rule", "builtin:net1_pressure_control", "examples/networks/Net1.inp", "examples/networks/Net2.inp", "examples/networks/Net3.inp",
+COMMON = ["builtin:net1_noon_rule", "builtin:net1_pressure_control", "builtin:head_pattern_with_pattern_start", "examples/networks/Net1.inp", "examples/networks/Net2.inp", "examples/networks/Net3.inp",
           "wntr/tests/networks_for_testing/Todini_Fig2_optCost_CMH.inp", "wntr/tests/networks_for_testing/Todini_Fig2_optCost_GPM.inp",
           "wntr/tests/networks_for_testing/Todini_Fig2_solA_CMH.inp", "wntr/tests/networks_for_testing/Todini_Fig2_solA_GPM.inp",
           "wntr/tests/networks_for_testing/conditional_controls_1.inp", "wntr/tests/networks_for_testing/leaks.inp",
@@ -70,6 +70,19 @@ def _builtin(name):
             wn.add_control("c_low", Control(ValueCondition(j, "pressure", "<", 82.0), ControlAction(p, "status", 0)))
             wn.add_control("c_high", Control(ValueCondition(j, "pressure", ">", 86.0), ControlAction(p, "status", 1)))
         return wn
+    if name == "head_pattern_with_pattern_start":
+        wn = wntr.network.WaterNetworkModel()
+        wn.add_pattern("hp", [1.0, 1.2, 0.8, 1.1, 0.9, 1.3])
+        wn.add_pattern("dp", [1.0, 0.5, 1.5, 0.75])
+        wn.add_reservoir("R", base_head=50, head_pattern="hp")
+        wn.add_junction("A", base_demand=0.01, elevation=0, demand_pattern="dp")
+        wn.add_junction("B", base_demand=0.02, elevation=0)
+        wn.add_pipe("RA", "R", "A", length=100, diameter=0.3, roughness=100)
+        wn.add_pipe("AB", "A", "B", length=100, diameter=0.3, roughness=100)
+        wn.options.time.duration = 8 * 3600
+        wn.options.time.pattern_timestep = 3600
+        wn.options.time.pattern_start = 7200
+        return wn
     wn = wntr.network.WaterNetworkModel()
     wn.add_reservoir("R", base_head=50)
     wn.add_junction("A", base_demand=0.0, elevation=0)
@@ -94,8 +107,9 @@ def _load(rel, max_hours=24):
     return wn
 
 
-def _worst(a, b):
-    """largest |a - b| relative to the full scale of a, per quantity; 'shape' if the tables are not comparable"""
+def _worst(a, b, skip_pressure_of=()):
+    """largest |a - b| relative to the full scale of a, per quantity; 'shape' if the tables are not comparable.
+    skip_pressure_of: nodes whose pressure is compared separately (reservoirs, see wntr_vs_epanet)"""
     out = {}
     for grp, key in KEYS:
         x, y = getattr(a, grp)[key], getattr(b, grp)[key]
@@ -103,6 +117,9 @@ def _worst(a, b):
             out[key] = "shape %s vs %s" % (x.shape, y.shape)
             continue
         y = y[x.columns]
+        if key == "pressure" and skip_pressure_of:
+            keep = [c for c in x.columns if c not in skip_pressure_of]
+            x, y = x[keep], y[keep]
         sc = max(1e-9, float(np.nanmax(np.abs(x.values.astype(float)))))
         out[key] = float(np.nanmax(np.abs(x.values.astype(float) - y.values.astype(float)))) / sc
     return out
@@ -134,7 +151,7 @@ def binfile_vs_toolkit(tier, seed, shard, nshards):
     import wntr.epanet.toolkit as tk
     from wntr.epanet.util import EN
     _quiet()
-    nets = COMMON[:8] if tier == "quick" else COMMON
+    nets = COMMON[:9] if tier == "quick" else COMMON
     evals, distinct, failures, samples = 0, set(), [], []
     TOL = 2e-5        # float32 output file vs float32 toolkit values
     with Scratch() as d:
@@ -205,7 +222,7 @@ def binfile_vs_toolkit(tier, seed, shard, nshards):
 def unit_independence(tier, seed, shard, nshards):
     import wntr
     _quiet()
-    nets = UNIT_NETS[:12] if tier == "quick" else UNIT_NETS
+    nets = UNIT_NETS[:13] if tier == "quick" else UNIT_NETS
     TOL = 3e-3
     evals, distinct, failures, samples = 0, set(), [], []
     with Scratch() as d:
@@ -296,7 +313,7 @@ def wntr_vs_epanet(tier, seed, shard, nshards):
     _quiet()
     TOL = {"DD": 3e-3, "PDD": 3e-3}       # observed on the pinned tree: <= 5.1e-4
     nets = COMMON
-    evals, distinct, failures, samples = 0, set(), [], []
+    evals, distinct, failures, samples, known = 0, set(), [], [], []
     with Scratch() as d:
         for i, rel in enumerate(nets):
             if i % nshards != shard:
@@ -315,13 +332,27 @@ def wntr_vs_epanet(tier, seed, shard, nshards):
                     continue
                 evals += 1
                 distinct.add((rel, dm))
-                ws = _worst(e, w)
+                res_names = list(wn.reservoir_name_list)
+                ws = _worst(e, w, skip_pressure_of=res_names)
                 bad = _bad(ws, TOL[dm])
                 if bad:
                     failures.append(dict(net=rel, demand_model=dm, relative_difference_full_scale=bad, tolerance=TOL[dm]))
+                # the "pressure" reported at reservoirs, compared on its own
+                if res_names:
+                    pe, pw = e.node["pressure"][res_names].values.astype(float), w.node["pressure"][res_names].values.astype(float)
+                    if float(np.nanmax(np.abs(pe - pw))) > 1e-3:
+                        from pyvc.runner import known_bounded
+                        kf = known_bounded("C03", "C03.wntr_vs_epanet:reservoir_pressure_under_a_head_pattern")
+                        moved = any(wn.get_node(r).head_pattern_name for r in res_names)
+                        if kf is not None and moved:
+                            known.append("%s [%s %s]" % (kf["what_fails"][:160], rel, dm))
+                        else:
+                            failures.append(dict(net=rel, demand_model=dm, reservoir_pressure_epanet=pe[:3].tolist(), reservoir_pressure_wntr=pw[:3].tolist()))
                 if len(samples) < 3:
                     samples.append(dict(net=rel, demand_model=dm, worst=ws))
-    return _result(evals, distinct, failures, samples,
+    out = _result(evals, distinct, failures, samples,
                    "shard %d/%d: %d networks of the common feature set x {DD, PDD (required pressure 20 m)}: WNTRSimulator vs EpanetSimulator at every "
                    "report step; heads, pressures, demands, flows rel. DD %.0e / PDD %.0e of full scale, link statuses exact"
                    % (shard, nshards, len(nets), TOL["DD"], TOL["PDD"]))
+    out["known"] = sorted(set(known))
+    return out
